@@ -398,6 +398,21 @@ func ruleBR1() Rule {
 									why = "utf8.RuneLen is a byte width"
 									return false
 								}
+								// a helper of the package: what its returns are made of
+								if fo := core.StaticCallee(info, n); fo != nil {
+									if h := c.P.FuncOf(fo); h != nil && h.Body != nil && h.Decl != nil && h != f && depthBR1 < 2 {
+										depthBR1++
+										hw := c.returnsByteQuantity(h)
+										depthBR1--
+										if hw != "" {
+											why = h.Short + " returns a byte quantity (" + hw + ")"
+											return false
+										}
+										if c.returnsRuneCount(h) {
+											return false // a counting helper: its argument is text
+										}
+									}
+								}
 							case *ast.Ident:
 								if o := info.Uses[n]; o != nil {
 									if w, ok := tainted[o]; ok {
@@ -427,6 +442,10 @@ func ruleBR1() Rule {
 										continue
 									}
 									var w string
+									// a string is text, not a quantity: slicing it at a byte offset is what byte offsets are for
+									if b, isB := o.Type().Underlying().(*types.Basic); isB && b.Info()&types.IsString != 0 {
+										continue
+									}
 									if len(n.Rhs) == len(n.Lhs) {
 										w = taintOf(n.Rhs[i])
 									} else if len(n.Rhs) == 1 {
@@ -460,10 +479,6 @@ func ruleBR1() Rule {
 					sink := func(e ast.Expr, what string, pos token.Pos) {
 						key := f.Name + "|" + what
 						if w := taintOf(e); w != "" {
-							if f.Name == "ast.(*Comment).End" {
-								rr.OK(f, key, pos, "excluded", "Comment.End is excluded by the property's own text (pinned by the repository's test)").Trivial = true
-								return
-							}
 							rr.Bad(f, key, pos, "a byte quantity reaches a column: "+w+"; columns count characters, so positions drift on lines with multi-byte characters")
 						} else {
 							rr.OK(f, key, pos, "rune-clean", "no byte length or offset flows into this column")
@@ -1197,4 +1212,73 @@ func ruleQU4() Rule {
 				rr.Bad(f, key, bad, "a backslash is written in the branch for quoted text that is not directly followed by the character it escapes: it re-pairs the backslashes written before it, and the next special character of the quoted text is left unescaped")
 			}
 		}}
+}
+
+var depthBR1 int
+
+// returnsByteQuantity: some return of h is len(string), a strings.Index* result
+// or utf8.RuneLen (directly in the returned expression).
+func (c *Ctx) returnsByteQuantity(h *core.Func) string {
+	info := h.Info()
+	why := ""
+	h.OwnNodes(func(n ast.Node) bool {
+		ret, ok := n.(*ast.ReturnStmt)
+		if !ok {
+			return true
+		}
+		for _, e := range ret.Results {
+			ast.Inspect(e, func(x ast.Node) bool {
+				call, isCall := x.(*ast.CallExpr)
+				if !isCall || why != "" {
+					return why == ""
+				}
+				name := calleeName(info, call)
+				switch {
+				case name == "unicode/utf8.RuneCountInString" || name == "unicode/utf8.RuneCount":
+					return false
+				case isBuiltinCall(info, call, "len") && len(call.Args) == 1:
+					if t := info.Types[call.Args[0]].Type; t != nil && t.String() == "string" {
+						why = "len(" + exprStr(call.Args[0]) + ")"
+					}
+				case strings.HasPrefix(name, "strings.Index") || strings.HasPrefix(name, "strings.LastIndex") || name == "unicode/utf8.RuneLen":
+					why = name
+				}
+				return true
+			})
+		}
+		return true
+	})
+	return why
+}
+
+// returnsRuneCount: every return of h is a rune count (possibly plus constants).
+func (c *Ctx) returnsRuneCount(h *core.Func) bool {
+	info := h.Info()
+	n, ok := 0, true
+	h.OwnNodes(func(x ast.Node) bool {
+		ret, isRet := x.(*ast.ReturnStmt)
+		if !isRet {
+			return true
+		}
+		n++
+		if len(ret.Results) != 1 {
+			ok = false
+			return true
+		}
+		found := false
+		ast.Inspect(ret.Results[0], func(y ast.Node) bool {
+			if call, isCall := y.(*ast.CallExpr); isCall {
+				if name := calleeName(info, call); name == "unicode/utf8.RuneCountInString" || name == "unicode/utf8.RuneCount" {
+					found = true
+					return false
+				}
+			}
+			return true
+		})
+		if !found {
+			ok = false
+		}
+		return true
+	})
+	return ok && n > 0
 }
